@@ -85,7 +85,17 @@ def run(ctx):
         # ---------------- b_to_epsilon
         fn = mod.func("b_to_epsilon"); ctx.saw(mod, fn)
         log = []
-        out = seq6(Evaluator(mod, inline=set(), call_policy=pol_factory(log)).call_function("b_to_epsilon", [Bsym, cell]))
+
+        def same6(a_, b_):
+            return len(a_) == len(b_) and all(x_.equals(y_) for x_, y_ in zip(a_, b_))
+
+        def run_b2e(setup, fname_="b_to_epsilon"):
+            del log[:]
+            ev_ = Evaluator(mod, inline=set(), call_policy=pol_factory(log))
+            setup(ev_)
+            return seq6(ev_.call_function(fname_, [Bsym, cell]))
+        # (a tolerance guard in front of the formula: the general path is analysed below, the guarded one must agree with it)
+        out = N.fast_path_rule(ctx, "C13:b2e:%s.b_to_epsilon" % short, core.loc(mod, fn), run_b2e, same6)
         Bi = mat(Opaque("inv(B_matrix)", (3, 3)))
         T = mm(B0, Bi)
         ok = [n_ for n_, a in log] == ["form_b_mat"]
@@ -98,7 +108,8 @@ def run(ctx):
         # ---------------- b_to_epsilon_old
         fn = mod.func("b_to_epsilon_old"); ctx.saw(mod, fn)
         log = []
-        out = seq6(Evaluator(mod, inline=set(), call_policy=pol_factory(log)).call_function("b_to_epsilon_old", [Bsym, cell]))
+        out = N.fast_path_rule(ctx, "C13:b2e:%s.b_to_epsilon_old" % short, core.loc(mod, fn),
+                               lambda setup: run_b2e(setup, "b_to_epsilon_old"), same6)
         okc = True
         if okc:
             A = mat(Opaque("form_a_mat(b_to_cell(%s))" % vkey(Bsym), (3, 3)))
